@@ -768,3 +768,48 @@ func VH_C10_text() {
 	}
 	vReach("end")
 }
+
+// H-C10-keys: the two key derivations as units, for secrets with and without
+// leading zero bytes (an MPI is the minimum-length encoding: a secret whose
+// top bytes are zero is hashed in its shorter form).
+//
+// vh: prop=C10 expect=end unwind=300 timeout=60000
+func VH_C10_keys() {
+	vBigStrip(2)
+	vNote("shared secrets with up to two leading zero bytes (three MPI lengths)")
+	var v otrVersion = otrV3{}
+	if vChoose("v3", 2) == 0 {
+		v = otrV2{}
+	}
+	P := rPrime()
+	if vChoose("which", 2) == 0 {
+		s := vBig("s", 1536)
+		vAssume(s.Sign() > 0)
+		ssid, rk, sk := calculateAKEKeys(s, v)
+		k := rDeriveAKE(s)
+		vObserve("akekeys", ssid[:], rk.c, sk.m2)
+		vAssert("ssid", vBytesEq(ssid[:], k.ssid))
+		vAssert("c", vAll(len(rk.c) == 16, vBytesEq(rk.c, k.c)))
+		vAssert("c-prime", vAll(len(sk.c) == 16, vBytesEq(sk.c, k.cp)))
+		vAssert("m1", vAll(len(rk.m1) == 32, vBytesEq(rk.m1, k.m1)))
+		vAssert("m2", vAll(len(rk.m2) == 32, vBytesEq(rk.m2, k.m2)))
+		vAssert("m1-prime", vAll(len(sk.m1) == 32, vBytesEq(sk.m1, k.m1p)))
+		vAssert("m2-prime", vAll(len(sk.m2) == 32, vBytesEq(sk.m2, k.m2p)))
+	} else {
+		priv := vBytes("priv", 40)
+		their := vBig("their", 1536)
+		vAssume(vAll(vBigLess(big.NewInt(1), their), vBigLess(their, P)))
+		ourPub := new(big.Int).Exp(big.NewInt(2), new(big.Int).SetBytes(vhCopy(priv)), P)
+		vAssume(ourPub.Cmp(their) != 0)
+		keys := calculateDHSessionKeys(secretKeyValue(vhCopy(priv)), ourPub, their, v)
+		s := new(big.Int).Exp(their, new(big.Int).SetBytes(vhCopy(priv)), P)
+		ref := rDeriveSession(s, ourPub, their)
+		vObserve("sesskeys", keys.sendingAESKey, keys.extraKey)
+		vAssert("send-aes", vAll(len(keys.sendingAESKey) == 16, vBytesEq(keys.sendingAESKey, ref.sendAES)))
+		vAssert("recv-aes", vAll(len(keys.receivingAESKey) == 16, vBytesEq(keys.receivingAESKey, ref.recvAES)))
+		vAssert("send-mac", vAll(len(keys.sendingMACKey) == 20, vBytesEq(keys.sendingMACKey, ref.sendMAC)))
+		vAssert("recv-mac", vAll(len(keys.receivingMACKey) == 20, vBytesEq(keys.receivingMACKey, ref.recvMAC)))
+		vAssert("extra", vAll(len(keys.extraKey) == 32, vBytesEq(keys.extraKey, ref.extra)))
+	}
+	vReach("end")
+}
